@@ -25,6 +25,7 @@ inline int val (int x) { return x; }
 inline int val (double x) { return static_cast<int> (x); }
 
 #if __cplusplus >= 202002L && defined(__cpp_impl_three_way_comparison)
+#  define HAVE_SHIP 1
 struct Ship
 {
   int v;
@@ -44,8 +45,25 @@ struct Partial
   friend bool operator== (const Partial& a, const Partial& b) { return a.v == b.v; }
 };
 inline int val (const Partial& x) { return x.v; }
-#  define HAVE_SHIP 1
 #endif
+
+// double-valued element where the code 2 stands for NaN: unordered elements (partial ordering in C++20)
+#include <cmath>
+struct DN
+{
+  double d;
+  DN () : d (0) { }
+  DN (int x) : d (x == 2 ? std::nan ("") : static_cast<double> (x)) { }
+  friend bool operator== (const DN& a, const DN& b) { return a.d == b.d; }
+#if defined(HAVE_SHIP)
+  friend std::partial_ordering operator<=> (const DN& a, const DN& b) { return a.d <=> b.d; }
+#else
+  friend bool operator<  (const DN& a, const DN& b) { return a.d < b.d; }
+#endif
+};
+inline int val (const DN& x) { return x.d != x.d ? 2 : static_cast<int> (x.d); }
+template <typename T> struct has_unordered_values { static const bool value = false; };
+template <> struct has_unordered_values<DN> { static const bool value = true; };
 
 static std::vector<std::vector<int> > all_seqs (int maxlen, int alphabet)
 {
@@ -97,16 +115,19 @@ static void compare_all (const std::vector<std::vector<int> >& seqs, bool heap_v
       const bool eq = ca == cb, ne = ca != cb, lt = ca < cb, le = ca <= cb, gt = ca > cb, ge = ca >= cb;
       const bool meq = ma == mb, mne = ma != mb, mlt = ma < mb, mle = ma <= mb, mgt = ma > mb, mge = ma >= mb;
       bool ok = eq == meq && ne == mne && lt == mlt && le == mle && gt == mgt && ge == mge;
-      // mutual consistency
-      ok = ok && (eq != ne) && (lt == ! ge) && (gt == ! le) && (le == (lt || eq)) && (ge == (gt || eq))
-              && ((int (lt) + int (gt) + int (eq)) == 1);
+      // mutual consistency (total orders only: with unordered elements "not less" does not imply "greater or equal")
+      if (! has_unordered_values<T>::value)
+        ok = ok && (eq != ne) && (lt == ! ge) && (gt == ! le) && (le == (lt || eq)) && (ge == (gt || eq))
+                && ((int (lt) + int (gt) + int (eq)) == 1);
+      else
+        ok = ok && (eq != ne) && ! (lt && gt) && ! (eq && (lt || gt));
 #if defined(HAVE_SHIP)
       {
         auto c = ca <=> cb;
-        auto m = std::lexicographical_compare_three_way (ma.begin (), ma.end (), mb.begin (), mb.end (),
-                                                         [] (const T& x, const T& y) { return val (x) <=> val (y); });
+        auto m = ma <=> mb;     // std::vector's own three-way result (partial_ordering::unordered for NaN)
         ok = ok && ((c < 0) == (m < 0)) && ((c > 0) == (m > 0)) && ((c == 0) == (m == 0));
-        ok = ok && ((c < 0) == lt) && ((c > 0) == gt) && ((c == 0) == eq);
+        ok = ok && ((c < 0) == lt) && ((c > 0) == gt);
+        if (! has_unordered_values<T>::value) ok = ok && ((c == 0) == eq);
       }
 #endif
       if (! ok)
@@ -191,6 +212,15 @@ static void erase_all (const std::vector<std::vector<int> >& seqs)
   }
 }
 
+template <typename A, typename B>
+static bool same_codes (const A& a, const B& b)
+{
+  if (a.size () != b.size ()) return false;
+  typename A::const_iterator i = a.begin (); typename B::const_iterator j = b.begin ();
+  for (; i != a.end (); ++i, ++j) if (val (*i) != val (*j)) return false;
+  return true;
+}
+
 template <typename T, unsigned N>
 static void nonmember_all (const std::vector<std::vector<int> >& seqs)
 {
@@ -211,9 +241,9 @@ static void nonmember_all (const std::vector<std::vector<int> >& seqs)
         && gch::data (a) == a.data () && gch::data (ca) == ca.data ();
       using std::swap;
       swap (a, b);
-      ok = ok && a == eb && b == ea;
+      ok = ok && same_codes (a, eb) && same_codes (b, ea);
       a.swap (b);
-      ok = ok && a == ea && b == eb;
+      ok = ok && same_codes (a, ea) && same_codes (b, eb);
       if (! ok)
       {
         G ().caseid = format ("%s/N%u/nonmember/%s/%s", g_tname, N, show (seqs[i]).c_str (), show (seqs[j]).c_str ());
@@ -256,6 +286,7 @@ int main (int argc, char **argv)
   if (! std::strcmp (type, "int")) run_type<int> ("int", seqs);
   else if (! std::strcmp (type, "lteq")) run_type<LtEq> ("lteq", seqs);
   else if (! std::strcmp (type, "double")) run_type<double> ("double", seqs);
+  else if (! std::strcmp (type, "nan")) run_type<DN> ("nan", seqs);
 #if defined(HAVE_SHIP)
   else if (! std::strcmp (type, "ship")) run_type<Ship> ("ship", seqs);
   else if (! std::strcmp (type, "partial")) run_type<Partial> ("partial", seqs);
